@@ -133,9 +133,18 @@ def check(prop):
     tier = vlib.tier()
     v = Verdict(prop, tier, "model_checking")
     u = storeu.load()
-    vlib.build_harness(["storedrv"])
-    d = vlib.scratch("store-")
     cov = v.cov
+    try:
+        vlib.build_harness(["storedrv"])
+    except Infra as e:
+        if "verif_dump.go" not in str(e):
+            raise
+        # the hook that reads the index maps does not compile against this tree (the maps were renamed or merged): the
+        # driver is built without hooks; index dumps are not validated, indexed lookups are still compared with scans
+        vlib.build_harness(["storedrv"], tags="verif_hooks_off")
+        cov["index_dump_hook"] = "storage/memory/verif_dump.go does not compile against this tree; built without hooks: no index dumps"
+        v.notes.append(cov["index_dump_hook"])
+    d = vlib.scratch("store-")
     samples = []
     total_rejects = []
     if prop in ("C01", "C02"):
